@@ -40,10 +40,14 @@ pub(crate) trait MarkerEventContainer {
         self.get_events()
             .push(MarkEvent::NodeStart { kind, parent: 0 });
         self.incr_mark_level();
+        #[cfg(emmyluals_emmylua_analyzer_rust_verif)]
+        crate::verif::rec(|| crate::verif::VerifOp::Mark { position, kind });
         Marker::new(position)
     }
 
     fn push_node_end(&mut self) {
+        #[cfg(emmyluals_emmylua_analyzer_rust_verif)]
+        crate::verif::rec(|| crate::verif::VerifOp::PushNodeEnd);
         self.decr_mark_level();
         self.get_events().push(MarkEvent::NodeEnd);
     }
@@ -59,6 +63,11 @@ impl Marker {
     }
 
     pub fn set_kind<P: MarkerEventContainer>(&mut self, p: &mut P, kind: LuaSyntaxKind) {
+        #[cfg(emmyluals_emmylua_analyzer_rust_verif)]
+        crate::verif::rec(|| crate::verif::VerifOp::SetKind {
+            position: self.position,
+            kind,
+        });
         match &mut p.get_events()[self.position] {
             MarkEvent::NodeStart { kind: k, .. } => *k = kind,
             _ => unreachable!(),
@@ -66,6 +75,10 @@ impl Marker {
     }
 
     pub fn complete<P: MarkerEventContainer>(self, p: &mut P) -> CompleteMarker {
+        #[cfg(emmyluals_emmylua_analyzer_rust_verif)]
+        crate::verif::rec(|| crate::verif::VerifOp::Complete {
+            position: self.position,
+        });
         let kind = match p.get_events()[self.position] {
             MarkEvent::NodeStart { kind: k, .. } => k,
             _ => unreachable!(),
@@ -91,6 +104,10 @@ impl Marker {
     }
 
     pub fn undo<P: MarkerEventContainer>(self, p: &mut P) -> CompleteMarker {
+        #[cfg(emmyluals_emmylua_analyzer_rust_verif)]
+        crate::verif::rec(|| crate::verif::VerifOp::Undo {
+            position: self.position,
+        });
         match &mut p.get_events()[self.position] {
             MarkEvent::NodeStart { kind, .. } => {
                 *kind = LuaSyntaxKind::None;
@@ -113,6 +130,12 @@ pub(crate) struct CompleteMarker {
 impl CompleteMarker {
     pub fn precede<P: MarkerEventContainer>(&self, p: &mut P, kind: LuaSyntaxKind) -> Marker {
         let m = p.mark(kind);
+        #[cfg(emmyluals_emmylua_analyzer_rust_verif)]
+        crate::verif::rec(|| crate::verif::VerifOp::Precede {
+            start: self.start,
+            position: m.position,
+            kind,
+        });
         match &mut p.get_events()[self.start] {
             MarkEvent::NodeStart { parent, .. } => *parent = m.position,
             _ => unreachable!(),
